@@ -72,7 +72,7 @@ class Table_Form_Builder(object):
       factory = Table_Form_Factory(table_tuple, cls)
       func = factory()
       pf = Table_Form(table_tuple, cls)
-    except ValueError as e:
-      # e.g. too few data points for the interpolation scheme or x values that are not increasing
+    except (ValueError, IndexError) as e:
+      # e.g. too few data points for the interpolation scheme (no data at all is reported by SciPy as IndexError) or x values that are not increasing
       raise Table_Form_Exception("Could not create interpolation for [Table-Form:{}]: {}".format(table_tuple.name, e))
     return pf
